@@ -151,9 +151,11 @@ def eval_history(case):
             names = {ci: letters.word(k, caps=True) for k, ci in enumerate(first_seen)}
             lines = [l for (_, l, _) in stream]
             exps = [(names[ci], e) for (ci, _, e) in stream]
+            feed_only = [i for i, (_, e) in enumerate(exps) if e.get('rejected')]      # lines the tool cannot take in: no label
         else:
             lines, es, _ = hc.render_history(case['history'], case['variant'])
             exps = [('A', e) for e in es]
+            feed_only = []
         s = sut.Session()
         shown = []
         for k, line in enumerate(lines):
@@ -166,8 +168,9 @@ def eval_history(case):
         if case.get('select'):
             s.cmd('connection all')
             shown = [l for l in s.cmd('list *')[0] if outparse.classify(l)[0] == 'message']
-        if len(shown) != len(lines):
-            V.append(Violation('labels.line_count', case, {'expected': len(lines), 'observed': len(shown)}))
+        exps = [x for i, x in enumerate(exps) if i not in feed_only]
+        if len(shown) != len(lines) - len(feed_only):
+            V.append(Violation('labels.line_count', case, {'expected': len(lines) - len(feed_only), 'observed': len(shown)}))
         else:
             check_labels(s, shown, exps, case, V)
             if not V and len(case.get('history', [])) % 2 == 0:
